@@ -169,6 +169,7 @@ func (e *compatibilityEngine) NewInstantQuery(q storage.Queryable, opts *promql.
 		return nil, err
 	}
 
+	exec = model.VerifWrapRoot(exec, qs, ts.UnixMilli(), ts.UnixMilli(), 0)
 	if e.debugWriter != nil {
 		explain(e.debugWriter, exec, "", "")
 	}
@@ -206,6 +207,7 @@ func (e *compatibilityEngine) NewRangeQuery(q storage.Queryable, opts *promql.Qu
 		return nil, err
 	}
 
+	exec = model.VerifWrapRoot(exec, qs, start.UnixMilli(), end.UnixMilli(), step.Milliseconds())
 	if e.debugWriter != nil {
 		explain(e.debugWriter, exec, "", "")
 	}
@@ -265,6 +267,7 @@ func (q *compatibilityQuery) Exec(ctx context.Context) (ret *promql.Result) {
 	}
 loop:
 	for {
+		model.VerifYield("exec.loop")
 		select {
 		case <-ctx.Done():
 			return newErrResult(ret, ctx.Err())
